@@ -916,8 +916,13 @@ class FunctionBuilder:
         if arg_name in self.kwonlyargs:
             raise ExistingArgument(f'arg {arg_name!r} already in func {self.name} kwonly arg list')
         if not kwonly:
-            self.args.append(arg_name)
-            if default is not NO_DEFAULT:
+            if default is NO_DEFAULT:
+                # a required argument goes before the defaulted ones, so
+                # that every default stays attached to its own argument
+                self.args.insert(len(self.args) - len(self.defaults or ()),
+                                 arg_name)
+            else:
+                self.args.append(arg_name)
                 self.defaults = (self.defaults or ()) + (default,)
         else:
             self.kwonlyargs.append(arg_name)
